@@ -173,6 +173,14 @@ def run(ck):
             open(p, "w").write(text)
             jobs.append((p, [], (["-std=gnu2x"] if lang == "c" else ["-x", "c++", "-std=c++20"]), "sweep-%s-%s-%s" % (lang, cn, re.sub(r"\W+", "_", e)), text))
 
+        # calling-convention attributes (also those Rust has no ABI string for) on functions, function pointers, typedefs, members
+        for tgt in ("x86_64-unknown-linux-gnu", "i686-unknown-linux-gnu", "x86_64-pc-windows-msvc", "aarch64-unknown-linux-gnu"):
+            for a in ("regcall", "preserve_most", "preserve_all", "sysv_abi", "ms_abi", "vectorcall", "stdcall", "fastcall", "thiscall", "pascal", "swiftcall", "intel_ocl_bicc", 'pcs("aapcs")', "aarch64_vector_pcs"):
+                text = ("int __attribute__((%s)) cf(int a);\ntypedef int (__attribute__((%s)) *cfp_t)(int);\nstruct CH { cfp_t p; int (__attribute__((%s)) *q)(int, int); };\n"
+                        "cfp_t cget(void);\nvoid ctake(int (__attribute__((%s)) *cb)(void));\n" % ((a,) * 4))
+                p = os.path.join(tmp, "cc_%s_%s.h" % (tgt.split("-")[0] + tgt.split("-")[2][:3], re.sub(r"\W+", "_", a)))
+                open(p, "w").write(text)
+                jobs.append((p, [], ["--target=" + tgt, "-ffreestanding"], "callconv-%s-%s" % (tgt, a), text))
         # annotation sweep: every rustbindgen annotation, with well- and ill-formed values, attached to every kind of declaration
         anns = [("replaces", v) for v in ("Target", "TargetE", "TargetT", "TargetTmpl", "Missing", "", "D0", "ns::Target", "Target<int>")] + \
                [(a, None) for a in ("hide", "opaque", "nocopy", "nodebug", "nodefault", "mustusetype", "constant")] + \
